@@ -320,9 +320,11 @@ TInit ==
   /\ l = -Len(Batch[tid].pre)      \* earlier plan_on calls of the same planner object still to be replayed
   /\ phase = "init" /\ fails = {} /\ flags = {} /\ sup = <<>> /\ V = <<>>
 
-\* call history: the SAME planner object planned on another MDP before (T.pre lists those MDPs' sizes).  A planner
-\* carries no state from one plan_on to the next: the action changes nothing but the position, so the run on this
-\* MDP is judged exactly like the run of a fresh planner (its own prior, its own action sets, its own size).
+\* call history: the SAME planner object planned before - on another MDP (T.pre[i].same = 0, its size is listed), or
+\* on this very MDP object under another configuration (same = 1: planner.entropy_weight, planner.policy_prior or
+\* mdp.discount_rate were changed in place afterwards).  A planner carries no state from one plan_on to the next:
+\* the action changes nothing but the position, so the run on this MDP is judged exactly like the run of a fresh
+\* planner under the configuration in force at the time of the call (its own prior, action sets, size, weight).
 EarlierCall ==
   /\ Mode = "trace" /\ phase = "init" /\ l < 0
   /\ l' = l + 1
